@@ -72,7 +72,7 @@ def run_cli(args: list[str], cwd: Path, home: Path | None = None, timeout: float
     if env_extra:
         env.update(env_extra)
     try:
-        p = subprocess.run([PY, "-m", "src.cli_main", *args], cwd=str(cwd), env=env, capture_output=True, timeout=timeout)
+        p = subprocess.run([PY, "-P", "-m", "src.cli_main", *args], cwd=str(cwd), env=env, capture_output=True, timeout=timeout)
         return p.returncode, p.stdout.decode("utf-8", "replace"), p.stderr.decode("utf-8", "replace")
     except subprocess.TimeoutExpired as e:
         return 124, (e.stdout or b"").decode("utf-8", "replace"), "TIMEOUT"
